@@ -115,6 +115,42 @@ def short_sequences(quick):
     return out
 
 
+def error_catalogue():
+    """one minimal source per compile-time error code (every ERROR_ constant that grammar.y, parser.c, lexer.l, compiler.c, the hex / regexp
+    sub-parsers can store in last_error); the codes actually provoked over the whole run are reported in the evidence"""
+    R = lambda cond, strs="": "rule r { %scondition: %s }" % (("strings: " + strs + " ") if strs else "", cond)
+    T = 'import "tests" '
+    nest = lambda n: "".join("for any v%d in (0..1) : (" % i for i in range(n)) + "true" + ")" * n
+    C = [("DUPLICATED_IDENTIFIER", "rule a { condition: true } rule a { condition: true }"), ("DUPLICATED_STRING_IDENTIFIER", R("$a", '$a = "x" $a = "y"')),
+         ("DUPLICATED_TAG_IDENTIFIER", "rule a : t t { condition: true }"), ("DUPLICATED_META_IDENTIFIER", "rule a { meta: m = 1 m = 2 condition: true }"),
+         ("DUPLICATED_LOOP_IDENTIFIER", R("for any i in (0..1) : (for any i in (0..1) : (true))")), ("UNDEFINED_STRING", R("$a")), ("UNDEFINED_IDENTIFIER", R("foo")),
+         ("UNREFERENCED_STRING", R("true", '$a = "x"')), ("EMPTY_STRING", R("$a", '$a = ""')), ("NOT_A_STRUCTURE", T + R("tests.constants.one.x == 1")),
+         ("NOT_INDEXABLE", T + R("tests.constants.one[0] == 1")), ("NOT_A_FUNCTION", T + R("tests.constants.one(1) == 1")), ("INVALID_FIELD_NAME", T + R("tests.nosuchfield == 1")),
+         ("MISPLACED_ANONYMOUS_STRING", R("$", '$ = "x"')), ("INCLUDES_CIRCULAR_REFERENCE", 'include "loop_a.yar"'), ("INCLUDE_DEPTH_EXCEEDED", 'include "deep1.yar"'),
+         ("LOOP_NESTING_LIMIT_EXCEEDED", R(nest(5))), ("NESTED_FOR_OF_LOOP", R("for any of them : (for any of them : ($))", '$a = "x"')), ("UNKNOWN_MODULE", 'import "nosuchmodule" ' + R("true")),
+         ("INVALID_MODULE_NAME", 'import "' + "m" * 300 + '" ' + R("true")), ("WRONG_ARGUMENTS", T + R("tests.isum(1) == 1")), ("WRONG_ARGUMENTS:string", T + R('tests.isum("a", "b") == 1')),
+         ("TOO_MANY_ARGUMENTS", T + R("tests.isum(" + ", ".join(["1"] * 129) + ") == 1")), ("TOO_MANY_ARGUMENTS:200", T + R("tests.isum(" + ", ".join(["1"] * 200) + ") == 1")),
+         ("INVALID_HEX_STRING", R("$a", "$a = { 41 [2-1] 42 }")), ("INVALID_HEX_STRING:odd", R("$a", "$a = { 4 }")), ("INVALID_REGULAR_EXPRESSION", R("$a", "$a = /a{2,1}/")),
+         ("INVALID_REGULAR_EXPRESSION:matches", R('"a" matches /(/')), ("SYNTAX_ERROR", "rule r { condition }"), ("WRONG_TYPE", R('"a" + 1 == 2')), ("WRONG_TYPE:bool", R("true + 1 == 2")),
+         ("INVALID_MODIFIER", R("$a", '$a = "x" xor nocase')), ("INVALID_MODIFIER:base64", R("$a", '$a = "x" base64 fullword')), ("INVALID_PERCENTAGE:0", R("0% of them", '$a = "x"')),
+         ("INVALID_PERCENTAGE:101", R("101% of them", '$a = "x"')), ("DIVISION_BY_ZERO", R("1 \\ 0 == 1")), ("DIVISION_BY_ZERO:mod", R("1 % 0 == 1")),
+         ("REGULAR_EXPRESSION_TOO_LARGE", R("$a", "$a = /" + "(abcdefghij){1000}" * 6 + "/")), ("REGULAR_EXPRESSION_TOO_COMPLEX", R("$a", "$a = /" + "a?" * 2000 + "/")),
+         ("INTEGER_OVERFLOW", R("9223372036854775808 > 0")), ("INTEGER_OVERFLOW:hex", R("0x10000000000000000 > 0")), ("INTEGER_OVERFLOW:kb", R("9223372036854775807KB > 0")),
+         ("INTEGER_OVERFLOW:arith", R("9223372036854775807 + 1 > 0")), ("INTEGER_OVERFLOW:mul", R("4611686018427387904 * 2 > 0")), ("DUPLICATED_MODIFIER", R("$a", '$a = "x" wide wide')),
+         ("IDENTIFIER_MATCHES_WILDCARD", "rule a1 { condition: true } rule b { condition: any of (a*) } rule a2 { condition: true }"), ("INVALID_VALUE:xor", R("$a", '$a = "x" xor(300)')),
+         ("INVALID_VALUE:xor-range", R("$a", '$a = "x" xor(5-2)')), ("INVALID_VALUE:base64", R("$a", '$a = "x" base64("short")')), ("INVALID_OPERAND:shl", R("1 << -1 == 0")),
+         ("INVALID_OPERAND:shr", R("1 >> -1 == 0")), ("INVALID_OPERAND:shl-var", R("filesize << -1 == 0")), ("UNKNOWN_ESCAPE:strict-is-warning-only", R("$a", "$a = /a\\Rb/")),
+         ("string-too-long-identifier", R("$" + "a" * 200, "$" + "a" * 200 + ' = "x"')), ("rule-identifier-too-long", "rule " + "r" * 200 + " { condition: true }"),
+         ("unterminated-string", R("$a", '$a = "abc')), ("unterminated-regexp", R("$a", "$a = /abc")), ("unterminated-comment", "/* rule r { condition: true }"),
+         ("non-ascii", "rule r { condition: tr\xfce }"), ("nul-byte", "rule r { condition: \x00 true }"), ("jump-in-alternation", R("$a", "$a = { 41 ( 42 [300] 43 | 44 ) 45 }")),
+         ("unbounded-jump-in-alternation", R("$a", "$a = { 41 ( 42 [1-] 43 | 44 ) 45 }")), ("hex-starts-with-jump", R("$a", "$a = { [2] 41 42 }")), ("negative-at", R("$a at -1", '$a = "x"')),
+         ("range-lower-above-upper", R("$a in (5..2)", '$a = "x"')), ("of-too-many", R("3 of them", '$a = "x" $b = "y"')), ("external-redefinition-as-rule", "rule ext_i { condition: true }"),
+         ("rule-after-global-same-name-as-module", 'import "tests" rule tests { condition: true }'), ("entrypoint-deprecated", R("entrypoint == 0")), ("fail-on-slow", R("$a", "$a = /.*/")),
+         ("string-set-empty-wildcard", R("any of ($z*)", '$a = "x"')), ("rule-set-undefined", R("any of (nosuch*)")), ("loop-var-shadow-external", R("for any ext_i in (0..1) : (ext_i == 1)")),
+         ("meta-negative-string", "rule r { meta: m = -\"x\" condition: true }"), ("tag-keyword", "rule r : rule { condition: true }"), ("import-inside-rule", 'rule r { import "tests" condition: true }')]
+    return [("catalogue:" + n, 0, t) for n, t in C]
+
+
 def regex_sequences(quick):
     """every sequence of <= L regex tokens (valid pieces, unknown escapes, pieces the regex lexer / parser reject), as a string and as a
     `matches` operand; each compiled twice: strict escape checking off and on (which may only add warnings)"""
@@ -196,7 +232,7 @@ def run_chunk(arg):
         if not sig and seedname == "regex-sequences":
             out.append((seedname, kind, pos, None, (add["errors"] > 0, repr((sc1.get("rc"), sc1.get("t"))) if add["errors"] == 0 else "", add["cb_warnings"], text)))
             continue
-        out.append((seedname, kind, pos, sig, det if sig else (add["errors"] > 0)))
+        out.append((seedname, kind, pos, sig, det if sig else (add["last"] or -1 if add["errors"] > 0 else 0)))
     return out
 
 
@@ -241,6 +277,8 @@ def main():
             items.append((s["name"], s["ext"], kind, pos, text))
     for (kind, n, text) in short_sequences(quick):
         items.append(("short-sequences", [], kind, n, text))
+    for (kind, n, text) in error_catalogue():
+        items.append(("error-catalogue", [("ext_i", "i", 1)], kind, n, text))
     for (kind, n, text) in regex_sequences(quick):
         items.append(("regex-sequences", [], kind, n, text))
         items.append(("regex-sequences", [], "strict:" + kind, n, text))
@@ -250,6 +288,7 @@ def main():
     ck.cov["grammar_coverage_of_seeds"] = cov
     stats = dict(failed=0, compiled=0)
     twins = {}
+    codes, cat = {}, {}
     seen_texts = set()
     uniq = []
     for it in items:
@@ -269,6 +308,8 @@ def main():
                 twins.setdefault(det[3], {})[kind.startswith("strict:")] = det
             else:
                 stats["failed" if det else "compiled"] += 1
+                if det: codes[det] = codes.get(det, 0) + 1
+                if seedname == "error-catalogue": cat[kind.split(":", 1)[1]] = det
                 if ck.cov["evaluations"] % 20011 == 0:
                     ck.sample(dict(seed=seedname, deviation=kind, position=pos, outcome="diagnosed error" if det else "compiled and scanned"))
     # strict escape checking may add warnings, nothing else: same accept / reject decision, same scan results
@@ -283,6 +324,8 @@ def main():
         elif not lax[0] and lax[1] != strict[1]:
             ck.violation("C07:strict-escape-mode-changes-scan-result", dict(text=text, without_strict=lax[1][:300], with_strict=strict[1][:300]))
     ck.sub("regex-sequences:strict-vs-lax", pairs=npairs, note="every sequence of <=%d tokens of a 16-token regex alphabet (unknown escapes, lexer and parser errors) compiled with strict_escape off and on" % (3 if quick else 4))
+    ck.cov["error_codes_provoked"] = {str(k): v for k, v in sorted(codes.items())}
+    ck.cov["error_catalogue"] = dict(entries=len(cat), distinct_codes=len(set(v for v in cat.values() if v)), compiled_without_error=sorted(k for k, v in cat.items() if not v))
     ck.cov["distinct_nontrivial"] = stats["failed"]
     ck.cov["outcomes"] = stats
     ck.cov["seeds"] = len(S)
